@@ -150,6 +150,8 @@ def run_real(case, strategy, max_decisions=None):
     items = [parse_item(t) for t in case["prog"]]
     nsub = len(drive)
     explicit = any(it[0] is not None for it in items)
+    if explicit and lazy:
+        raise ValueError("explicit message numbers on a lazy mailbox are not supported by this harness (the fetch gate lives in _send_from, which numbers in order)")
     snaps = []
     state = {}
     gate_bad = []
@@ -438,6 +440,7 @@ def random_config(rng, kind="clean"):
             toks.append(f"f9:{99}")          # orphan future: nobody completes it
         else:
             lazy, drive = True, "0" * nsub   # lazy without a driver
+            toks = [t.split("@")[-1] for t in toks]   # (_send_from numbers in order; explicit numbers only via send())
     return mk_case(cap, lazy, drive, toks, workers, kills)
 
 
